@@ -129,8 +129,23 @@ def _cases(tier, rng):
                    "parallel": True}
         # kill points / torn writes: count the write events of an uninterrupted run first
         yield {"prog": prog, "storage": "file_array", "faults": "ENUM-KILLS"}
+        # the same kill points when the folder is *reused*: it holds a complete earlier run of the same program given
+        # other input values (the run under test starts with cleanup=True, is killed, and is resumed with cleanup=False)
+        # (an input that pipefunc can compare with the earlier run's - a list or a scalar - is what tells the two runs apart)
+        if any(not d.get("omit") and (d.get("kind") == "list" or "scalar" in d) for d in prog["inputs"].values()):
+            yield {"prog": prog, "storage": ("file_array", "dict")[q % 2], "faults": "ENUM-KILLS-REUSED"}
         if q % 2 == 0:  # memory storages persist at the end of a run: the kill points are the writes of that persist
             yield {"prog": prog, "storage": "dict", "faults": "ENUM-KILLS"}
+    want, tries = (3 if tier == "quick" else 30), 0
+    while want and tries < 40000:
+        tries += 1
+        prog = progs.gen_map_program(rng, n_funcs=rng.randint(1, 2), allow_generator=False)
+        _, calls = progs.denote(prog)
+        if not 2 <= len(calls) <= 6 or not any(not d.get("omit") and (d.get("kind") == "list" or "scalar" in d)
+                                               for d in prog["inputs"].values()):
+            continue
+        want -= 1
+        yield {"prog": prog, "storage": ("file_array", "dict")[want % 2], "faults": "ENUM-KILLS-REUSED"}
     # a two-dimensional mapped output stored in a memory backend, killed while the arrays are persisted (an array that
     # is already persisted is read back element by element, by linear index, on resume)
     si, sj = (2, 3) if rng.random() < 0.5 else (3, 2)
@@ -186,8 +201,8 @@ def _global_call_fault(prog, k):
 def _check(case):
     prog, st = case["prog"], case["storage"]
     want, calls = progs.denote(prog)
-    if case["faults"] == "ENUM-KILLS":
-        return _check_kills(prog, st, want, calls)
+    if case["faults"] in ("ENUM-KILLS", "ENUM-KILLS-REUSED"):
+        return _check_kills(prog, st, want, calls, reused=case["faults"] == "ENUM-KILLS-REUSED")
     base = tempfile.mkdtemp(prefix="vf_c05_")
     folder = os.path.join(base, "run")
     bad = []
@@ -231,11 +246,19 @@ def _check(case):
         shutil.rmtree(base, ignore_errors=True)
 
 
-def _check_kills(prog, st, want, calls):
+def _check_kills(prog, st, want, calls, reused=False):
     bad = []
     base = tempfile.mkdtemp(prefix="vf_c05k_")
     try:
         folder = os.path.join(base, "run")
+        older = os.path.join(base, "older")
+        if reused:
+            status, info, _ = _run_child({"prog": prog, "folder": folder, "storage": st, "cleanup": True, "fault": None,
+                                          "primed_inputs": True, "logfile": os.path.join(base, "older.log")})
+            if status != "ok":
+                return []  # the program cannot be run on other values (nothing to reuse): not this history
+            os.rename(folder, older)
+            shutil.copytree(older, folder)
         status, info, _ = _run_child({"prog": prog, "folder": folder, "storage": st, "cleanup": True,
                                       "fault": {"kind": "count"}, "logfile": os.path.join(base, "c.log")})
         if status != "ok":
@@ -244,6 +267,8 @@ def _check_kills(prog, st, want, calls):
         for kind in ("kill-before-open", "torn-write", "kill-after-rename"):
             for n in range(n_opens if kind != "kill-after-rename" else n_renames):
                 shutil.rmtree(folder, ignore_errors=True)
+                if reused:
+                    shutil.copytree(older, folder)
                 log1 = os.path.join(base, f"k{kind}{n}.log")
                 status, info, _ = _run_child({"prog": prog, "folder": folder, "storage": st, "cleanup": True,
                                               "fault": {"kind": kind, "n": n}, "logfile": log1})
